@@ -14,12 +14,14 @@ package attester
 //@   // go-eth2-client's attester duty decoders deliver no nil entries (its own range check dereferences each)
 //@   requires forall k int :: 0 <= k && k < len(attesterDuties) ==> attesterDuties[k] != nil
 //@   loop 1
+//@     freshwrites
 //@     invariant forall k int :: 0 <= k && k < len(attesterDuties) ==> attesterDuties[k] != nil
 //@     invariant forall s phase0.Slot :: in(validatorIndices, s) ==> in(committeeLengths, s) && committeeLengths[s] != nil
 //@     // everything the loop appends to or stores into was allocated here
 //@     invariant forall s phase0.Slot :: fresh(validatorIndices[s]) && fresh(committeeIndices[s]) && fresh(validatorCommitteeIndices[s])
 //@     invariant forall s phase0.Slot :: in(committeeLengths, s) ==> fresh(committeeLengths[s])
 //@   loop 2
+//@     freshwrites
 //@     invariant forall k int :: 0 <= k && k < len(duties) ==> duties[k] != nil
 //@   ensures result1 == nil
 //@   ensures forall k int :: 0 <= k && k < len(result0) ==> result0[k] != nil
